@@ -1244,6 +1244,161 @@ class Module:
         self.out.append("  match properties with\n  | none => []\n  | some p => p.foldl (fun d kv => Py.Dict.set d kv.1 kv.2) []")
         self.out.append("")
 
+    # -- T15: attributes that are views of the extended properties -----------------------------------------------------------------
+    def _units_key(self, e: ast.expr, keys: dict[str, str]) -> str:
+        if isinstance(e, ast.Name) and e.id in keys:
+            return "key_" + e.id.strip("_")
+        raise Untranslatable(f"unknown property key {ast.unparse(e)}", e, self.path)
+
+    def _units_cond(self, e: ast.expr, var: str, keys: dict[str, str], fail) -> str:
+        PROPS = "self._extended_properties"
+        if isinstance(e, ast.UnaryOp) and isinstance(e.op, ast.Not):
+            return f"¬ ({self._units_cond(e.operand, var, keys, fail)})"
+        if isinstance(e, ast.BoolOp):
+            j = " ∧ " if isinstance(e.op, ast.And) else " ∨ "
+            return "(" + j.join(f"({self._units_cond(v, var, keys, fail)})" for v in e.values) + ")"
+        if isinstance(e, ast.Name) and e.id == var:
+            return f"{var}.truthy = true"
+        if isinstance(e, ast.Call) and ast.unparse(e.func) == "isinstance" and len(e.args) == 2 and ast.unparse(e.args[0]) == var \
+                and ast.unparse(e.args[1]) == "str":
+            return f"{var}.isStr = true"
+        if isinstance(e, ast.Compare) and len(e.ops) == 1:
+            l, op, r = e.left, e.ops[0], e.comparators[0]
+            if isinstance(op, (ast.In, ast.NotIn)) and ast.unparse(r) == PROPS:
+                c = f"(props.get {self._units_key(l, keys)}).isSome = true"
+                return c if isinstance(op, ast.In) else f"¬ ({c})"
+            if isinstance(op, (ast.NotEq, ast.Eq)) and ast.unparse(l) == var and isinstance(r, ast.Call) and ast.unparse(r.func) == PROPS + ".get" \
+                    and len(r.args) == 1 and not r.keywords:
+                c = f"some {var} = props.get {self._units_key(r.args[0], keys)}"
+                return c if isinstance(op, ast.Eq) else f"¬ ({c})"
+        fail(f"unsupported condition {ast.unparse(e)[:80]}", e)
+
+    def translate_property_view(self, cls: str, attr: str, lean_prefix: str, keys: dict[str, str]) -> None:
+        """T15: a str attribute that is a view of one extended property (`units`, `x_units`, `y_units`, `channel_name`):
+             getter   `value = self._extended_properties.get(KEY, "")`; `assert isinstance(value, str)`; `return value`
+             setter   `if not isinstance(value, str): raise invalid_arg_type(...)`; `self._extended_properties[KEY] = value`
+        translated statement by statement over `Model.Units.Dict` / `PVal`.  Anything else is Untranslatable."""
+        c = self.find_class(cls)
+        PROPS = "self._extended_properties"
+        getter = setter = None
+        for n in c.body:
+            if isinstance(n, ast.FunctionDef) and n.name == attr:
+                decos = [ast.unparse(d) for d in n.decorator_list]
+                if decos == ["property"]:
+                    getter = n
+                elif decos == [f"{attr}.setter"]:
+                    setter = n
+                else:
+                    raise Untranslatable(f"{cls}.{attr}: decorators {decos}", n, self.path)
+        if getter is None or setter is None:
+            raise Untranslatable(f"{cls}.{attr}: property getter / setter not found", c, self.path)
+
+        def fail(msg, node):
+            raise Untranslatable(f"{cls}.{attr}: {msg}", node, self.path)
+
+        def body_of(fn):
+            return [st for st in fn.body if not (isinstance(st, ast.Expr) and isinstance(st.value, ast.Constant))]
+        # getter
+        def gstmts(ss, bound):
+            if not ss:
+                fail("getter falls off the end", getter)
+            st, rest = ss[0], ss[1:]
+            if isinstance(st, ast.Assign) and len(st.targets) == 1 and isinstance(st.targets[0], ast.Name) and isinstance(st.value, ast.Call) \
+                    and ast.unparse(st.value.func) == PROPS + ".get" and len(st.value.args) == 2 and not st.value.keywords \
+                    and isinstance(st.value.args[1], ast.Constant) and st.value.args[1].value == "":
+                v = st.targets[0].id
+                return f"let {v} : Model.Units.PVal := (props.get {self._units_key(st.value.args[0], keys)}).getD (Model.Units.PVal.str [])\n" + gstmts(rest, bound | {v})
+            if isinstance(st, ast.Assert) and isinstance(st.test, ast.Call) and ast.unparse(st.test.func) == "isinstance" \
+                    and isinstance(st.test.args[0], ast.Name) and st.test.args[0].id in bound and ast.unparse(st.test.args[1]) == "str":
+                return f"if ¬ ({st.test.args[0].id}.isStr = true) then Except.error PyErr.AssertionError else\n" + gstmts(rest, bound)
+            if isinstance(st, ast.Return) and isinstance(st.value, ast.Name) and st.value.id in bound:
+                if rest:
+                    fail("statements after return", rest[0])
+                return f"Except.ok {st.value.id}"
+            fail(f"unsupported getter statement {ast.unparse(st)[:80]}", st)
+        self.out.append(f"/-- generated from the getter of `{cls}.{attr}` -/")
+        self.out.append(f"@[pygen] def {lean_prefix}_get (props : Model.Units.Dict) : Except PyErr Model.Units.PVal :=")
+        self.out.append(indent(gstmts(body_of(getter), set()), 1))
+        self.out.append("")
+        # setter
+        params = [a.arg for a in setter.args.args][1:]
+        if params != ["value"]:
+            fail(f"setter parameters {params}", setter)
+
+        def sstmts(ss):
+            if not ss:
+                fail("setter ends without a write", setter)
+            st, rest = ss[0], ss[1:]
+            if isinstance(st, ast.If) and not st.orelse and len(st.body) == 1 and isinstance(st.body[0], ast.Raise):
+                exc = st.body[0].exc
+                nm = ast.unparse(exc.func).split(".")[-1] if isinstance(exc, ast.Call) else None
+                if nm not in ERROR_FACTORIES:
+                    fail("raise of unknown error", st)
+                return f"if {self._units_cond(st.test, 'value', keys, fail)} then Except.error PyErr.{ERROR_FACTORIES[nm]} else\n" + sstmts(rest)
+            if isinstance(st, ast.Assign) and len(st.targets) == 1 and isinstance(st.targets[0], ast.Subscript) \
+                    and ast.unparse(st.targets[0].value) == PROPS and isinstance(st.value, ast.Name) and st.value.id == "value":
+                if rest:
+                    fail("statements after the write", rest[0])
+                return f"Except.ok (props.set {self._units_key(st.targets[0].slice, keys)} value)"
+            fail(f"unsupported setter statement {ast.unparse(st)[:80]}", st)
+        self.out.append(f"/-- generated from the setter of `{cls}.{attr}` -/")
+        self.out.append(f"@[pygen] def {lean_prefix}_set (props : Model.Units.Dict) (value : Model.Units.PVal) : Except PyErr Model.Units.Dict :=")
+        self.out.append(indent(sstmts(body_of(setter)), 1))
+        self.out.append("")
+
+    def translate_units_ctor_rule(self, cls: str, arg: str, lean_name: str, keys: dict[str, str]) -> None:
+        """T15: what `__init__` does with a units argument: the (optional) `if not isinstance(<arg>, str): raise` that precedes it and
+        the statement `if KEY not in self._extended_properties: self._extended_properties[KEY] = <arg>` +
+        `elif <cond on arg and the entry>: raise ValueError(...)`."""
+        fn = self.find_func(cls, "__init__")
+        PROPS = "self._extended_properties"
+
+        def fail(msg, node):
+            raise Untranslatable(f"{cls}.__init__ ({arg}): {msg}", node, self.path)
+        pre, rule = [], None
+        for st in fn.body:
+            if isinstance(st, ast.If) and arg in {n.id for n in ast.walk(st.test) if isinstance(n, ast.Name)} and not st.orelse \
+                    and len(st.body) == 1 and isinstance(st.body[0], ast.Raise) and rule is None:
+                pre.append(st)
+            elif isinstance(st, ast.If) and isinstance(st.test, ast.Compare) and isinstance(st.test.ops[0], (ast.In, ast.NotIn)) \
+                    and ast.unparse(st.test.comparators[0]) == PROPS and any(isinstance(n, ast.Name) and n.id == arg for n in ast.walk(st)):
+                if rule is not None:
+                    fail("two statements store the argument", st)
+                rule = st
+            elif rule is not None and any(isinstance(n, ast.Name) and n.id == arg for n in ast.walk(st)):
+                fail(f"the argument is used after the rule: {ast.unparse(st)[:60]}", st)
+        if rule is None:
+            fail("no `if KEY not in self._extended_properties` statement for the argument", fn)
+
+        def raise_of(st):
+            exc = st.exc
+            nm = ast.unparse(exc.func).split(".")[-1] if isinstance(exc, ast.Call) else None
+            if nm not in ERROR_FACTORIES:
+                fail("raise of unknown error", st)
+            return f"Except.error PyErr.{ERROR_FACTORIES[nm]}"
+
+        def block(ss):
+            if not ss:
+                return "Except.ok props"
+            if len(ss) == 1 and isinstance(ss[0], ast.Raise):
+                return raise_of(ss[0])
+            if len(ss) == 1 and isinstance(ss[0], ast.Assign) and len(ss[0].targets) == 1 and isinstance(ss[0].targets[0], ast.Subscript) \
+                    and ast.unparse(ss[0].targets[0].value) == PROPS and isinstance(ss[0].value, ast.Name) and ss[0].value.id == arg:
+                return f"Except.ok (props.set {self._units_key(ss[0].targets[0].slice, keys)} {arg})"
+            if len(ss) == 1 and isinstance(ss[0], ast.If):
+                return ifs(ss[0])
+            fail(f"unsupported block {ast.unparse(ss[0])[:60]}", ss[0])
+
+        def ifs(st):
+            return f"if {self._units_cond(st.test, arg, keys, fail)} then\n{indent(block(st.body), 1)}\nelse\n{indent(block(st.orelse), 1)}"
+        code = ifs(rule)
+        for st in reversed(pre):
+            code = f"if {self._units_cond(st.test, arg, keys, fail)} then {raise_of(st.body[0])} else\n{code}"
+        self.out.append(f"/-- generated from `{cls}.__init__`: what the constructor does with `{arg}` -/")
+        self.out.append(f"@[pygen] def {lean_name} (props : Model.Units.Dict) ({arg} : Model.Units.PVal) : Except PyErr Model.Units.Dict :=")
+        self.out.append(indent(code, 1))
+        self.out.append("")
+
     # -- T10: generator loops over time values of one family ------------------------------------------------------------
     def translate_timestamp_generator(self, cls: str, name: str, lean_name: str, attr_types: dict[str, tuple[str, str]],
                                       int_params: list[str]) -> None:
